@@ -132,7 +132,12 @@ def test_source(k, case, rng):
         body = "assert %s in %s" % (x, S)
     else:
         body = "assert %s['key'] == %s" % (S, x)
-    if place == "loop":
+    if place == "loop" and op == "in":
+        # the tested object grows between the iterations (three states of one mutable list)
+        x2 = wrap(c["cont"], second, v)
+        body = "_acc = []\n    for _v in [%s, %s, %s]:\n        _acc.append(_v)\n        assert _acc in %s" % (x, x2, x, S)
+        x = "[%s] / [.., %s] / [.., .., %s] (one growing list)" % (x, x2, x)
+    elif place == "loop":
         # an == snapshot compared with two different values would contradict itself
         x2 = x if op in ("eq", "getitem") else wrap(c["cont"], second, v)
         body = "for _v in [%s, %s]:\n        %s" % (x, x2, body.replace(x, "_v", 1))
